@@ -160,8 +160,13 @@ def run(prog, rep, tier):
     s4, _ = run_function(S4, f4)
     sup = [c for c in S4.select("call", qname=f4.qname) if c.target == SE + "BayesianNetwork.sample"]
     first = min([x.order for x in S4.facts if x.qname == f4.qname and x.kind in ("store", "loop") or (x.qname == f4.qname and x.kind == "call" and x.target.startswith("numpy.random"))] or [0])
-    rep.check("CONTRACT.delegated-sample", bool(sup) and sup[0].args[:1] == [N] and not sup[0].path and sup[0].order < first, fwhere(f4),
-              "super().sample(n) validates n before anything else", "n is not validated first")
+    other = [c for c in S4.select("call", qname=f4.qname) if getattr(c, "callkind", "") == "repo" and c.target != SE + "BayesianNetwork.sample" and N in list(c.args) + list((c.kwargs or {}).values())
+             and not c.path and c.order < first]
+    if not sup and other:
+        rep.unk("CONTRACT.delegated-sample", fwhere(f4, other[0].node), "n is not handed to BayesianNetwork.sample but to %s first: whether that validates it the same way is not read" % other[0].target.split(".")[-1])
+    else:
+        rep.check("CONTRACT.delegated-sample", bool(sup) and sup[0].args[:1] == [N] and not sup[0].path and sup[0].order < first, fwhere(f4),
+                  "super().sample(n) validates n before anything else", "n is not validated first")
     loops = sorted([(k, v) for k, v in S4.loopinfo.items() if v["func"] == f4.qname], key=lambda kv: kv[0][1])
     if len(loops) == 2 and loops[0][1]["iter"][0] == "ext" and loops[0][1]["iter"][1] == "zip":
         # for size, original, forests in zip(n, self._data, self._random_forests.T): the per-environment pieces walked in step; read as X[k] with k the
@@ -200,6 +205,8 @@ def run(prog, rep, tier):
                         "before its parents" % (fmt(lv["iter"]), destroyed[0][1]))
         raise Inconclusive("DRFNet.sample: expected an environment loop and a node loop", f4.node)
     (lo, outer), (li_, inner) = loops
+    if any(li_ in getattr(fct, "loops", ()) and lo in getattr(fct, "loops", ()) and getattr(fct, "loops", ()).index(li_) < getattr(fct, "loops", ()).index(lo) for fct in S4.facts):
+        (lo, outer), (li_, inner) = (li_, inner), (lo, outer)            # the node loop sits in a helper defined above its caller: nesting decides, not line numbers
     k4 = ("elem", outer["iter"])
     i4 = ("elem", inner["iter"])
     rep.check("ORDER.nodes", inner["iter"] == ("self", "_ordering"), fwhere(f4, inner["node"]), "nodes are generated along self._ordering", "node loop runs over %s" % fmt(inner["iter"]))
@@ -303,9 +310,13 @@ def run(prog, rep, tier):
                     okd = True          # the row labels themselves are drawn
             why = "row read = Y.iloc[drawn id]: %s; population = all training rows of Y: %s (a = %s); p = weights[i, :] of the test point being filled: %s" % (
                 row_ok, pop_ok, fmt(b.get("a", ("const", None)))[:50], p_ok)
-        rep.check("FOREST.sample-rows", okd, fwhere(f6, draws[0].node if draws else None),
-                  "predict(functional='sample'): the id drawn over *all* training rows with weights[i, :] is the row of Y that is handed out",
-                  "the sampled response is not the training row the weights point at: " + why)
+        if not okd and why.startswith("expected one numpy.random.choice") and len(draws) == 1 and not sts:
+            rep.unk("FOREST.sample-rows", fwhere(f6, draws[0].node), "the drawn rows are not stored into ret.sample directly (a helper fills another array?): not read")
+            okd = None
+        if okd is not None:
+          rep.check("FOREST.sample-rows", okd, fwhere(f6, draws[0].node if draws else None),
+                    "predict(functional='sample'): the id drawn over *all* training rows with weights[i, :] is the row of Y that is handed out",
+                    "the sampled response is not the training row the weights point at: " + why)
     except Inconclusive as e:
         rep.unk("FOREST.sample-rows", fwhere(f6), "drf.predict left the modelled fragment: %s" % e.why)
     # ---------------------------------------------------------------- the `graph is not a DAG -> ValueError` clause rests on is_dag being exact
